@@ -119,7 +119,17 @@ Section HM5.
   Proof.
     intros n m (ch & fl & I).
     destruct (hm_rehash_ok K V kdflt vdflt keqb khash keqb_refl keqb_sym keqb_trans n m (KU_of_inv K V keqb khash _ _ _ I) (inv_size _ _ _ _ _ _ _ I))
-      as [->|(m' & -> & I' & A & _)]; [left; reflexivity|right]. eauto.
+      as [(-> & _)|(m' & -> & I' & A & _)]; [left; reflexivity|right]. eauto.
+  Qed.
+
+  (* the distinguished overflow outcome needs more than 2^62 buckets *)
+  Lemma hm_rehash_overflow_only_huge : forall n m, hm_inv m ->
+    hm_rehash K V kdflt vdflt keqb khash n m = Trap TrapOverflow ->
+    (2 ^ 62 < Z.of_nat (Nat.max n (ceilidiv (hsize m * 100) HM_MAXLF_n)))%Z.
+  Proof.
+    intros n m (ch & fl & I) H.
+    destruct (hm_rehash_ok K V kdflt vdflt keqb khash keqb_refl keqb_sym keqb_trans n m (KU_of_inv K V keqb khash _ _ _ I) (inv_size _ _ _ _ _ _ _ I))
+      as [(_ & B)|(m' & E & _)]; [assumption|]. rewrite E in H. discriminate.
   Qed.
 
   Lemma hm_reserve_op : forall n m, hm_inv m ->
